@@ -8,6 +8,7 @@ f27_0:
   call f27_2
   call f28_0
   call f28_2
+  mov wvsv1@GOTPCREL(%rip),%rax
   ret
 .section .text.f27_1,"ax",@progbits
 .globl f27_1
@@ -16,6 +17,7 @@ f27_1:
   ret
   call f17_1
   lea d_f27_1(%rip),%rax
+  mov wvsv1(%rip),%rax
   ret
 .section .data.d_f27_1,"aw",@progbits
 .globl d_f27_1
